@@ -124,11 +124,12 @@ def build_model(cells, names=None, default_sheet='Sheet1', build_code=True):
 
 SHEETS = ['Sheet1', 'S2', 'Data']
 
-NUMS = [0, 1, 2, 3, 7, -4, 10, 100, 0.5, 2.25, -1.5, 1e-7, 12345.678,
+NUMS = [0, 1, 2, 3, 7, -4, 10, 100, 0.5, 2.25, -1.5, 1e-7, 12345.678, 800,
+        2.5, 0.125, -4.5,
         0.30000000000000004, 1 / 3, 1.0, 2.0]
 EXTREME = [1e308, -0.0, 5e-324, 2 ** 70, -1e308]
 TEXTS = ['abc', 'Hello', 'x', 'héllo wörld', '12', '3.5', 'TRUE',
-         'a"b', "it's", '日本', 'long ' * 70, '0', '1e3', ' 7 ', 'False']
+         'a"b', "it's", '日本', 'long ' * 70, '0', '1e3', ' 7 ', 'False', 'ABC', 'Abc', 'HELLO']
 DATES = [datetime.datetime(2020, 3, 15), datetime.datetime(1999, 12, 31, 12),
          datetime.datetime(1900, 3, 1),
          datetime.datetime(2021, 5, 17, 13, 45, 12, 345678),
@@ -147,6 +148,9 @@ T_SCALAR = [
     'TRIM({a})', 'SIGN({a})', 'POWER({a},2)', 'ISERROR({a}/{b})',
     'IF(ISERROR({a}/{b}),{c},{a}/{b})', 'MAX({a},{b})', 'MIN({a},{b},{c})',
     'SUM({a},{b},{c})', 'NOSUCHFN({a})', '1/0+{a}', '#N/A', '{a}+"x"',
+    'EXP({a})', 'COSH({a})', 'DEGREES({a})', 'LN({a})', 'ROUND({a},0)',
+    'ROUND({a}/{b},2)', 'EXP({a})+{b}', 'ROUNDUP({a},1)', 'TRUNC({a})',
+    'FLOOR({a},1)', 'CEILING({a},1)', 'ISEVEN({a})', 'LOWER({a})',
 ]
 T_RANGE = [
     'SUM({R})', 'AVERAGE({R})', 'MIN({R})', 'MAX({R})', 'COUNT({R})',
